@@ -18,7 +18,8 @@ RULE = ("integer images of 2-3 D with 1..64 grey levels x 4/13 directions x dist
 NOT_PROVED = ["Haralick formulas and Zernike moments are floating-point pipelines: compared with independent evaluations of the "
               "textbook definitions / checked as invariances on the implementation, not proved",
               "180-degree / transposition invariance of the symmetric co-occurrence matrices is checked exactly per case, not proved",
-              "LBP mapping is proved as a finite sweep (P <= 12)"]
+              "LBP mapping: least-of-the-P-rolls is proved for every P (lbp_map_is_least_rotation); that rolling is a cyclic bit rotation "
+              "(so rotated codes share the bin) is a finite sweep, P <= 12"]
 BUDGET_S = {"quick": 100, "thorough": 900}
 
 
